@@ -297,6 +297,7 @@ class Machine:
         self.ticks = 0
         self.mon_uid = 0
         self.features = set()
+        self.stopped_with_finals = False
 
     # -- helpers --------------------------------------------------------------------------------
     def flag(self, name):
@@ -369,6 +370,8 @@ class Machine:
                 elif k == "record":
                     S.records.append(s[1])
                 elif k == "record_initial":
+                    if S.dyn and self.t > 0:
+                        raise Unjudged("record initial in a sub-scenario started after step 0")
                     S.initials.append(s[1])
                 else:
                     S.finals.append(s[1])
@@ -406,6 +409,8 @@ class Machine:
         if not S.running:
             return
         S.running = False
+        if S.dyn and S.finals:
+            self.stopped_with_finals = True
         for c in list(S.children):
             self.stop_scenario(c)
         S.children = []
@@ -811,6 +816,8 @@ class Machine:
             except EndNow as e:
                 self.end_types = e.types
             # step 10: record final
+            if self.stopped_with_finals:
+                raise Unjudged("record final in a sub-scenario that ended before the simulation")
             recs = []
             for S in self.all_scens_for_records():
                 for tag in S.finals:
